@@ -754,7 +754,13 @@ func ToEntry(n Node) (e *Entry) {
 			}
 		case "action":
 			for _, r := range fv.Interface().([]*Action) {
-				e.add(r.Name, ToEntry(r))
+				action := ToEntry(r)
+				if action.RPC == nil {
+					// Like an rpc, an action has an input and an
+					// output even if the source spells out neither.
+					action.RPC = &RPCEntry{}
+				}
+				e.add(r.Name, action)
 			}
 		case "augment":
 			for _, a := range fv.Interface().([]*Augment) {
